@@ -31,6 +31,27 @@ func (w *world) oneStep() {
 	if nonTyped < 2 {
 		wGroup = 0
 	}
+	if !w.prelude && w.c.ShrinkBias > 0 {
+		// directed: shorten a log whose retention record still names the old end
+		var cands []*simChan
+		for _, c := range w.chans {
+			st := c.st()
+			if c.fl != flTyped && st.hasRet && st.ret.RetainedMaxSeq > st.hwOr0() && st.ret.RetainedMaxSeq > st.ret.LocalRetentionThroughSeq &&
+				st.lastRowSeq() > st.ret.PhysicalRetentionThroughSeq {
+				cands = append(cands, c)
+			}
+		}
+		if len(cands) > 0 && tp.Intn(4) >= 4-w.c.ShrinkBias {
+			c := cands[tp.Intn(len(cands))]
+			if c.fl == flExact && tp.Intn(2) == 0 {
+				w.opReplace(c)
+			} else {
+				w.opCompatTruncate(c)
+			}
+			w.afterOp(c)
+			return
+		}
+	}
 	switch tp.Weighted([]int{24, wGroup, wLease, wReopen}) {
 	case 0:
 		c := w.chans[tp.Intn(len(w.chans))]
@@ -46,7 +67,7 @@ func (w *world) oneStep() {
 }
 
 func (w *world) afterOp(c *simChan) {
-	if w.stop() || w.c.Crash {
+	if w.stop() || (w.c.Crash && !w.prelude) {
 		return
 	}
 	level := 0
@@ -88,7 +109,14 @@ func (w *world) singleOp(c *simChan) {
 			w.opTypedCheckpoint(c)
 		}
 	case flCompat:
-		switch tp.Weighted([]int{10, 3, 3, 2, 3, 2, 1, 2}) {
+		// append, apply, truncate, adopt, trim, checkpoint-hw, discard, batch
+		ws := []int{10, 3, 3, 2, 3, 2, 1, 2}
+		if w.prelude {
+			ws = []int{8, 2, 1, 4, 4, 4, 0, 2} // build rows, watermarks and retention state
+		} else if w.c.ShrinkBias > 0 {
+			ws[2] += 3 * w.c.ShrinkBias
+		}
+		switch tp.Weighted(ws) {
 		case 0:
 			w.opCompatAppend(c)
 		case 1:
@@ -107,7 +135,15 @@ func (w *world) singleOp(c *simChan) {
 			w.opBatchAppend([]*simChan{c})
 		}
 	default:
-		switch tp.Weighted([]int{12, 3, 2, 3, 2, 3}) {
+		// exact batch, truncate, adopt, trim, checkpoint-hw, recovery replacement
+		ws := []int{12, 3, 2, 3, 2, 3}
+		if w.prelude {
+			ws = []int{10, 1, 4, 4, 4, 1}
+		} else if w.c.ShrinkBias > 0 {
+			ws[1] += 3 * w.c.ShrinkBias
+			ws[5] += 3 * w.c.ShrinkBias
+		}
+		switch tp.Weighted(ws) {
 		case 0:
 			w.opBatchAppend([]*simChan{c})
 		case 1:
@@ -483,7 +519,46 @@ func (w *world) genTrimArgs(st *mstate, adopt bool) (through uint64, opts Retent
 	if tp.Intn(4) == 0 {
 		opts.MaxBytes = 1 + tp.Intn(64)
 	}
+	if w.forceThrough > 0 {
+		through, opts = w.forceThrough, RetentionTrimOptions{MaxMessages: w.forceMaxMessages}
+	}
 	return through, opts
+}
+
+// touchRetention is the directed tail of the C09 prelude: it leaves a
+// compat / exact channel with an adopted retention boundary below the log end
+// and a retention record freshly written by a trim page (RetainedMaxSeq ==
+// log end, rows surviving above the physical boundary) - the state from which
+// a later truncation or suffix replacement has to lower the retained log end.
+func (w *world) touchRetention(c *simChan) {
+	st := c.st()
+	if c.fl == flTyped || st.leo < 2 || len(st.rows) == 0 {
+		return
+	}
+	b := st.hwOr0()
+	if b < 1 {
+		b = 1
+	}
+	if st.hasRet && st.ret.LocalRetentionThroughSeq > b {
+		b = st.ret.LocalRetentionThroughSeq
+	}
+	if b >= st.leo {
+		return
+	}
+	w.forceThrough = b
+	w.forceMaxMessages = w.r.Tape.Intn(2)
+	defer func() { w.forceThrough, w.forceMaxMessages = 0, 0 }()
+	w.mu.Lock()
+	w.step++
+	w.mu.Unlock()
+	w.opAdopt(c)
+	if w.stop() {
+		return
+	}
+	w.mu.Lock()
+	w.step++
+	w.mu.Unlock()
+	w.opCompatTrim(c)
 }
 
 func (w *world) opTypedTrim(c *simChan) {
@@ -909,6 +984,10 @@ func (w *world) opCompatTruncate(c *simChan) {
 		}
 	}
 	w.r.Probe("op.compat.truncate")
+	if st.hasRet && st.ret.RetainedMaxSeq > to && to > st.ret.PhysicalRetentionThroughSeq && !w.prelude {
+		// the retained log end had to be lowered although rows survive above the trim boundary
+		w.r.Probe("shrink.retained_max_lowered_with_live_tail")
+	}
 }
 
 func (w *world) opAdopt(c *simChan) {
@@ -922,6 +1001,9 @@ func (w *world) opAdopt(c *simChan) {
 		hi = st.leo + 2
 	}
 	through := uint64(tp.Intn(int(hi) + 1))
+	if w.forceThrough > 0 {
+		through = w.forceThrough
+	}
 	cursor := []string{"committed", "x"}[tp.Weighted([]int{4, 1})]
 	ns := st.clone()
 	want := kOK
@@ -1585,6 +1667,9 @@ func (w *world) opReplace(c *simChan) {
 		w.fail("result-mismatch", "exact.Replace", fmt.Sprintf("replace on %s returned %+v, model last=%d", c.key, res, final))
 	}
 	w.r.Probe("op.exact.replace")
+	if st.hasRet && st.ret.RetainedMaxSeq > final && final > st.ret.PhysicalRetentionThroughSeq && !w.prelude {
+		w.r.Probe("shrink.retained_max_lowered_with_live_tail")
+	}
 }
 
 // ---- concurrent cross-channel group (commit coordinator grouping) ----
